@@ -211,6 +211,7 @@ type Worker struct {
 	nextTable int
 	nvar      int
 	inHeavy   bool
+	noSummaries bool
 	encoded   []value
 	heavyCache map[tkey]*Term
 	tableBySig map[string]*Table
@@ -759,6 +760,7 @@ func (w *Worker) resetPath(it workItem) {
 	w.depth = 0
 	w.nondets = nil
 	w.observes = nil
+	w.noSummaries = false
 	w.encoded = nil
 	w.usedSolver = false
 	w.mapOrderNondet = false
@@ -1438,12 +1440,18 @@ func (w *Worker) assertT(fr *frame, c *Term, id string) {
 		w.addPC(c) // a proven assertion is a lemma for the rest of the path
 		return
 	case Sat:
-		w.aSat++
 		for _, x := range w.tb.vars {
 			if _, ok := m[x]; !ok {
 				m[x] = 0
 			}
 		}
+		if !w.modelOK(m, neg) {
+			// the solver's model does not satisfy the path condition: never trust it
+			w.aUnk++
+			w.undecided = append(w.undecided, Undecided{AssertID: id, Site: fr.caller.site(), Reason: "solver returned a model that violates the path condition (rejected)"})
+			break
+		}
+		w.aSat++
 		w.violations = append(w.violations, &Violation{
 			AssertID: id, Kind: "assert", Site: fr.caller.site(), Stack: fr.caller.stack(6),
 			Values: w.recsFromModel(m), Observes: w.evalObserves(m),
@@ -1465,6 +1473,16 @@ func (w *Worker) assertT(fr *frame, c *Term, id string) {
 
 func (w *Worker) reportPanic(p targetPanic) {
 	m, r := w.model()
+	if r == Sat {
+		for _, x := range w.tb.vars {
+			if _, ok := m[x]; !ok {
+				m[x] = 0
+			}
+		}
+		if !w.modelOK(m, nil) {
+			r = Unknown
+		}
+	}
 	msg := describe(p.v)
 	if iv, ok := p.v.(iface); ok {
 		msg = describe(iv.v)
@@ -1480,4 +1498,27 @@ func (w *Worker) reportPanic(p targetPanic) {
 		AssertID: "no-panic", Kind: "panic", Site: p.site, Message: msg,
 		Values: w.recsFromModel(m), Observes: w.evalObserves(m),
 	})
+}
+
+// modelOK evaluates the path condition and extra under the model.
+func (w *Worker) modelOK(m map[*Term]uint64, extra *Term) bool {
+	env := &evalEnv{vals: m, memo: map[*Term]uint64{}}
+	ok := true
+	func() {
+		defer func() {
+			if recover() != nil {
+				ok = false
+			}
+		}()
+		for _, c := range w.pc {
+			if env.eval(c) != 1 {
+				ok = false
+				return
+			}
+		}
+		if extra != nil && env.eval(extra) != 1 {
+			ok = false
+		}
+	}()
+	return ok
 }
